@@ -461,11 +461,14 @@ def main(argv):
         return 2
     try:
         if argv[1] == "replay":
+            if len(argv) < 3 or not os.path.exists(argv[2]):
+                print("usage: vcheck replay <path of a replay file>")
+                return 2
             data = json.load(open(argv[2]))
             prop = importlib.import_module("driver.props." + data["property"].lower())
             return replay(prop, argv[2])
         pid = argv[1].upper()
-        tier = os.environ.get("VERIF_TIER") or (argv[2] if len(argv) > 2 else "quick")
+        tier = argv[2] if len(argv) > 2 else (os.environ.get("VERIF_TIER") or "quick")      # (the tier named on the command line wins)
         seed = int(os.environ.get("VERIF_SEED", "0") or 0)
         prop = importlib.import_module("driver.props." + pid.lower())
         return run_check(prop, tier, seed)
